@@ -29,7 +29,7 @@ proved by new inductions over the recursive plan in `Lemmas/SpecPreL.lean`:
 erases).
 -/
 
-namespace Bao.SpecPred
+namespace Bao.SpecPre
 open Bao Bao.Ops Bao.Spec Bao.PlanPre
 
 variable {size bs ml : Nat} {q : Ranges} {p : List Chunk}
@@ -322,4 +322,4 @@ Remarks.
   (Lean 4.33); `level_small` avoids it with `Nat.lt_of_le_of_lt`.
 -/
 
-end Bao.SpecPred
+end Bao.SpecPre
